@@ -269,6 +269,10 @@ func (e *Enc) autoProps() []string {
 	}
 	switch pkgShort(e.pkg) {
 	case "parser":
+		if e.fn != nil && strings.HasPrefix(e.fn.Name(), "yyAction_") {
+			// extracted semantic actions (C03); inside the trusted driver as far as C01/C15 are concerned
+			return []string{"C03"}
+		}
 		return []string{"C01", "C15"}
 	case "env":
 		return []string{"C01", "C12"}
